@@ -738,7 +738,18 @@ func (c *Ctl) choose(o Options) (a *Arrival, idle bool, diverged bool) {
 		if len(c.timed) > 0 && c.rng.Intn(1000) < o.IdleProb {
 			return nil, true, false
 		}
-		return cand[c.rng.Intn(len(cand))], false, false
+		pick := cand[c.rng.Intn(len(cand))]
+		// a goroutine that keeps coming back to the same gate is spinning / polling on something a held goroutine owns:
+		// holding on would never end, so everybody is let go
+		key := pick.Role + "@" + pick.Pt
+		c.spinCnt[key]++
+		if c.spinCnt[key] > 6 && len(c.held) > 0 {
+			c.spinCnt[key] = 0
+			for g := range c.held {
+				delete(c.held, g)
+			}
+		}
+		return pick, false, false
 	default: // random
 		if len(c.timed) > 0 && c.rng.Intn(1000) < o.IdleProb {
 			return nil, true, false
